@@ -100,10 +100,18 @@ def gen_fru(rng, variant=None):
 def gen_callout(rng, shape=None):
     """shape: dict(fru=variant, pce=None|namelen, mru=None|count, loc=len)"""
     from .encode import callout_bytes
-    while True:
+    shape = dict(shape) if shape else None
+    for attempt in range(200):
         c = _gen_callout(rng, shape)
         if len(callout_bytes(c)) <= 255:      # the callout size field is one byte
             return c
+        if shape is not None and attempt >= 3:
+            # the requested combination cannot fit: shorten the location code, then the MRU list
+            if shape.get('loc', 0) > 0:
+                shape['loc'] = max(0, shape['loc'] - 20)
+            elif shape.get('mru'):
+                shape['mru'] = shape['mru'] - 1
+    raise RuntimeError('cannot build callout %r' % (shape,))
 
 
 def _gen_callout(rng, shape=None):
@@ -145,6 +153,8 @@ def gen_src(rng, sid='PS', ncallouts=None, kind=None, shapes=None):
         words.append(w)
     if ncallouts is None:
         ncallouts = rng.choice([None, None, 0, 1, 2, 3])
+    elif ncallouts < 0:
+        ncallouts = None
     callouts = None
     if ncallouts is not None:
         lst = [gen_callout(rng, shapes[i] if shapes else None) for i in range(ncallouts)]
